@@ -466,6 +466,20 @@ fn c15(args: &[String]) {
     writeln!(out, "{}", json!({"shard_done": shard})).unwrap();
 }
 
+/// c14 --out <ndjson> [--all-bits] [--no-db]
+fn c14(args: &[String]) {
+    let output = arg(args, "--out").expect("--out");
+    let mut out = std::fs::OpenOptions::new().create(true).append(true).open(&output).expect("open output");
+    writeln!(out, "{}", json!({"idx": 0, "begin": true})).unwrap();
+    let mut r = lvh::c14::run(args.iter().any(|a| a == "--all-bits"), !args.iter().any(|a| a == "--no-db"));
+    r["idx"] = json!(0);
+    writeln!(out, "{}", r).unwrap();
+    let mut r2 = lvh::c14::roundtrips();
+    r2["idx"] = json!(1);
+    writeln!(out, "{}", r2).unwrap();
+    writeln!(out, "{}", json!({"shard_done": 0})).unwrap();
+}
+
 fn main() {
     lvh::util::quiet_panics();
     let args: Vec<String> = std::env::args().collect();
@@ -481,6 +495,7 @@ fn main() {
         Some("arith") => arith(&args[2..]),
         Some("sqlc") => sqlc(&args[2..]),
         Some("c15") => c15(&args[2..]),
+        Some("c14") => c14(&args[2..]),
         Some("record-stress") => record_stress(&args[2..]),
         _ => {
             eprintln!("usage: lvh <replay-hist> ...");
